@@ -1,5 +1,4 @@
-import EgglogVerif.Model.EGraph
-import EgglogVerif.Lemmas.UF
+import EgglogVerif.Lemmas.EGraphFix
 /-
 C04 — The database is canonical and consistent after every command (model level).
 
@@ -13,58 +12,9 @@ on the failing path of the real engine), and a rebuild pass re-inserts every row
 -/
 namespace EgglogVerif.EGraph
 
-def UniqueKeys (rows : List Row) : Prop := rows.Pairwise (fun a b => a.args ≠ b.args)
-
-theorem insertInto_keys (g : EG) (d : Decl) : ∀ (rows : List Row) (r : Row),
-    ∀ x ∈ (insertInto g d rows r).2, x.args = r.args ∨ ∃ y ∈ rows, y.args = x.args := by
-  intro rows
-  induction rows generalizing g with
-  | nil => intro r x hx; simp [insertInto] at hx; subst hx; exact Or.inl rfl
-  | cons y ys ih =>
-    intro r x hx
-    simp only [insertInto] at hx
-    split at hx
-    · rename_i hk
-      simp only [List.mem_cons] at hx
-      rcases hx with rfl | hx
-      · left
-        have : (mergeRows g d y r).2.args = y.args := by
-          unfold mergeRows
-          cases d.merge <;> simp <;> split <;> rfl
-        rw [this]; exact hk
-      · exact Or.inr ⟨x, List.mem_cons_of_mem _ hx, rfl⟩
-    · simp only [List.mem_cons] at hx
-      rcases hx with rfl | hx
-      · exact Or.inr ⟨x, List.mem_cons_self, rfl⟩
-      · rcases ih g r x hx with h | ⟨z, hz, hzk⟩
-        · exact Or.inl h
-        · exact Or.inr ⟨z, List.mem_cons_of_mem _ hz, hzk⟩
-
 /-- **Inserting a row keeps "at most one row per key"**, whatever the merge behaviour. -/
-theorem C04_insert_unique (g : EG) (d : Decl) : ∀ (rows : List Row) (r : Row), UniqueKeys rows →
-    UniqueKeys (insertInto g d rows r).2 := by
-  intro rows
-  induction rows generalizing g with
-  | nil => intro r _; simp [insertInto, UniqueKeys]
-  | cons y ys ih =>
-    intro r hu
-    simp only [insertInto]
-    unfold UniqueKeys at hu ⊢
-    rw [List.pairwise_cons] at hu
-    split
-    · rename_i hk
-      rw [List.pairwise_cons]
-      refine ⟨fun b hb => ?_, hu.2⟩
-      have : (mergeRows g d y r).2.args = y.args := by
-        unfold mergeRows
-        cases d.merge <;> simp <;> split <;> rfl
-      rw [this]; exact hu.1 b hb
-    · rename_i hk
-      rw [List.pairwise_cons]
-      refine ⟨fun b hb => ?_, ih g r hu.2⟩
-      rcases insertInto_keys g d ys r b hb with h | ⟨z, hz, hzk⟩
-      · rw [h]; exact hk
-      · rw [← hzk]; exact hu.1 z hz
+theorem C04_insert_unique (g : EG) (d : Decl) (rows : List Row) (r : Row) (h : UniqueKeys rows) :
+    UniqueKeys (insertInto g d rows r).2 := insertInto_unique g d rows r h
 
 /-- **After a rebuild pass a table holds at most one row per key.** -/
 theorem C04_uniqueKeys (g : EG) (f : Nat) :
@@ -84,5 +34,105 @@ theorem C04_canon_idem_arg (g : EG) (v : Int) (h : UF.AInv g.parents) : g.find (
   unfold EG.find
   have : (Int.ofNat (UF.findNaive g.parents v.toNat)).toNat = UF.findNaive g.parents v.toNat := Int.toNat_natCast _
   rw [this, UF.findNaive_eq h, UF.findNaive_eq h, UF.root_idem h]
+
+/-! ### the whole database after a command -/
+
+theorem insertRow_wf {g : EG} (h : g.WF) (f : Nat) (r : Row) : (g.insertRow f r).WF :=
+  (insertInto_spec (g.decl f) (g.table f) g r h).1
+
+theorem lookupOrCreate_wf {g : EG} (h : g.WF) (f : Nat) (args : List Int) : (g.lookupOrCreate f args).1.WF := by
+  unfold EG.lookupOrCreate
+  cases lookupRow (g.table f) args with
+  | some r => exact h
+  | none => exact insertRow_wf (fresh_wf h) f _
+
+/-- every action (including `delete` and failing ones) keeps the union-find well formed -/
+theorem runAction_wf (acc : EG × Subst) (a : Action) (h : acc.1.WF) : (runAction acc a).1.WF := by
+  cases a with
+  | call dst f args =>
+    simp only [runAction]
+    cases args.mapM (evalTm acc.2) with
+    | none => exact h
+    | some vs => exact lookupOrCreate_wf h f vs
+  | prim dst op args =>
+    simp only [runAction]
+    cases args.mapM (evalTm acc.2) with
+    | none => exact h
+    | some vs =>
+      simp only
+      cases primEval op vs with
+      | none => exact h
+      | some v => exact h
+  | union x y =>
+    simp only [runAction]
+    cases evalTm acc.2 x with
+    | none => exact h
+    | some vx =>
+      cases evalTm acc.2 y with
+      | none => exact h
+      | some vy => exact union_wf h vx vy
+  | set f args v =>
+    simp only [runAction]
+    cases args.mapM (evalTm acc.2) with
+    | none => exact h
+    | some vs =>
+      cases evalTm acc.2 v with
+      | none => exact h
+      | some x => exact insertRow_wf h f _
+  | subsume f args =>
+    simp only [runAction]
+    cases args.mapM (evalTm acc.2) with
+    | none => exact h
+    | some vs =>
+      simp only
+      cases lookupRow (acc.1.table f) vs with
+      | some r => exact insertRow_wf h f _
+      | none => exact insertRow_wf (lookupOrCreate_wf h f vs) f _
+  | delete f args =>
+    simp only [runAction]
+    cases args.mapM (evalTm acc.2) with
+    | none => exact h
+    | some vs => exact h
+  | panic => exact h
+
+theorem runActions_wf (g : EG) (s : Subst) (as : List Action) (h : g.WF) : (runActions g s as).WF := by
+  unfold runActions
+  have key : ∀ (as : List Action) (acc : EG × Subst), acc.1.WF → (as.foldl runAction acc).1.WF := by
+    intro as
+    induction as with
+    | nil => intro acc h; exact h
+    | cons a as ih => intro acc h; exact ih _ (runAction_wf acc a h)
+  exact key as (g, s) h
+
+/-- **After every top-level action list** — whatever it contains: constructor calls, unions, sets,
+subsumes, deletes, failing primitives, panics — **the database the command leaves behind is
+canonical**, provided the rebuild loop reports its fixpoint: every stored key and every stored
+id-valued output is a representative, and no table holds two rows for one key. -/
+theorem C04_topAction (fuel : Nat) (g : EG) (as : List Action) (h : g.WF)
+    (hfix : (rebuild fuel (runActions g [] as)).2 = true) : Canonical (topAction fuel g as) :=
+  (rebuild_canonical fuel _ (runActions_wf g [] as h) hfix).1
+
+/-- **After every ruleset iteration** (any rules, any matches, any heads) likewise. -/
+theorem C04_stepRules (fuel : Nat) (g : EG) (rules : List Rule) (h : g.WF)
+    (hfix : (rebuild fuel ((rules.flatMap fun r => (matchAll g false r.body).map fun s => (s, r.head)).foldl
+      (fun g (sh : Subst × List Action) => runActions g sh.1 sh.2) g)).2 = true) :
+    Canonical (stepRules fuel g rules).1 := by
+  have key : ∀ (work : List (Subst × List Action)) (g : EG), g.WF →
+      (work.foldl (fun g (sh : Subst × List Action) => runActions g sh.1 sh.2) g).WF := by
+    intro work
+    induction work with
+    | nil => intro g h; exact h
+    | cons w ws ih => intro g h; exact ih _ (runActions_wf g w.1 w.2 h)
+  exact (rebuild_canonical fuel _ (key _ g h) hfix).1
+
+/-- canonical means: canonicalising any stored row again changes nothing -/
+theorem C04_canonical_stable {g : EG} (c : Canonical g) (f : Nat) (y : Row) (hy : y ∈ g.table f)
+    (hid : (g.decl f).outIsId = true) : g.canonRow (g.decl f) y = y := by
+  obtain ⟨c1, c2⟩ := c.rows f y hy
+  unfold ArgsCanon at c1
+  unfold EG.canonRow
+  rw [c1, hid]
+  simp only [if_true]
+  rw [c2 hid]
 
 end EgglogVerif.EGraph
